@@ -46,7 +46,9 @@ def _td_grid(tier):
                             bdims = fb + cd
                         ra = [1] + [1 + (j + variant) % 2 for j in range(da - 1)] + [1]
                         rb = [1] + [2 - (j + variant) % 2 for j in range(db - 1)] + [1]
-                        for cplx in ((False,) if (tier == 'quick' and variant) else (False, True)):
+                        for cplx in ((False,) if (tier == 'quick' and variant) else (False, True, 'last')):
+                            if cplx == 'last' and (min(da, db) < 2 or (tier == 'quick' and (k + da + db) % 3)):
+                                continue        # mixed dtypes per core: a sample in the quick tier
                             for ow in (False, True):
                                 p = {'a': {'rows': [x[0] for x in adims], 'cols': [x[1] for x in adims], 'ranks': ra},
                                      'b': {'rows': [x[0] for x in bdims], 'cols': [x[1] for x in bdims], 'ranks': rb},
@@ -112,7 +114,11 @@ def tensordot(ctx, a, b, num_axes, mode, cplx, overwrite):
 
 # ----------------------------------------------------------------- rank_tensordot etc.
 def _simple_grid(tier, n, **kw):
-    return [{'shape': s, 'cplx': c} for s in pick(all_shapes(**kw), n if tier == 'quick' else 4 * n, is_edge) for c in (False, True)]
+    sel = pick(all_shapes(**kw), n if tier == 'quick' else 4 * n, is_edge)
+    out = [{'shape': s, 'cplx': c} for s in sel for c in (False, True)]
+    # mixed dtypes per core (real first core / complex later core and the reverse)
+    out += [{'shape': s, 'cplx': c} for i, s in enumerate(sel) if len(s['rows']) >= 2 and i % 3 == 0 for c in ('last', 'first')]
+    return out
 
 
 @scenario('C02', 'rank_ops', lambda tier: _simple_grid(tier, 14))
@@ -174,7 +180,9 @@ def _diag_grid(tier):
         for k in range(d + 1):
             for sub in itertools.combinations(range(d), k):
                 cols = [1 if i in sub else s['cols'][i] for i in range(d)]
-                for cplx in (False, True):
+                for cplx in (False, True, 'last'):
+                    if cplx == 'last' and len(s['rows']) < 2:
+                        continue
                     out.append({'shape': dict(s, cols=cols), 'diag_list': list(sub), 'cplx': cplx})
     return out if tier != 'quick' else out[::2]
 
